@@ -318,7 +318,7 @@ def rule_rhoend_single_source(eng, rep, rule="C18-5.one-source-of-truth-for-the-
     rescales = []
     for n, d in cfg.g.nodes(data=True):
         st = d["ast"]
-        if d["kind"] == "stmt" and isinstance(st, ast.Assign) and len(st.targets) == 1 and ekey(st.targets[0]) == local and cfg.path_avoiding(ctor[0], n, []) is not None:
+        if d["kind"] == "stmt" and isinstance(st, ast.Assign) and any(ekey(t) == local for t in st.targets) and cfg.path_avoiding(ctor[0], n, []) is not None:
             rescales.append((n, st))
     field_stores_sm = [n for n, d in cfg.g.nodes(data=True) if d["kind"] == "stmt" and isinstance(d["ast"], ast.Assign)
                        and any(_is_ctrl_attr(eng, sm, t, "rhoend") for t in d["ast"].targets)]
@@ -339,8 +339,10 @@ def rule_rhoend_single_source(eng, rep, rule="C18-5.one-source-of-truth-for-the-
         site = eng.where(sm, st)
         lkeys = param_keys_in(eng, st.value)
         # (a) mirrored directly: control.rhoend = <local> before the next reader call / loop iteration
-        direct = [f for f in field_stores_sm if cfg.path_avoiding(n, f, []) is not None and _dominated_after(cfg, n, f)]
-        if direct or (isinstance(st.targets[0], ast.Name) and False):
+        heads = [h for (h, k, s_) in cfg.loops if k == "while"]
+        direct = [f for f in field_stores_sm if f == n or (cfg.path_avoiding(n, f, heads) is not None and all(cfg.path_avoiding(n, h, [f]) is None for h in heads)
+                                                             and cfg.path_avoiding(n, cfg.exit, [f] + heads) is None)]
+        if direct:
             nok += 1
             rep.ok(rule, site, "local rescaling is followed by a store to control.rhoend")
             continue
